@@ -271,7 +271,14 @@ func (s Segment) Backup(targetDir string) error {
 		return fmt.Errorf("backup index rel: %w", err)
 	}
 	targetIndex := filepath.Join(targetDir, indexName)
-	if err := copyFile(s.Index, targetIndex); err != nil {
+	switch err := copyFile(s.Index, targetIndex); {
+	case errors.Is(err, os.ErrNotExist):
+		// the index is derived data and may be absent until first use: drop any
+		// stale copy, it is rebuilt when the backup is opened
+		if err := os.Remove(targetIndex); err != nil && !errors.Is(err, os.ErrNotExist) {
+			return fmt.Errorf("backup index delete: %w", err)
+		}
+	case err != nil:
 		return fmt.Errorf("backup index copy: %w", err)
 	}
 
